@@ -27,11 +27,24 @@ class X(ExprMixin, CallMixin):
         self.stats = {"prune_queries": 0}
 
     # ------------------------------------------------------------------ entry point
-    def run(self, qual, args, kwargs, st, closure=None):
-        """execute function `qual` on state st; returns (end_state_value_pairs) as list of Exit incl. normal return"""
+    def run(self, qual, args, kwargs, st, closure=None, split_returns=False):
+        """execute function `qual` on state st; returns (end_state_value_pairs) as list of Exit incl. normal return.
+        split_returns: keep one exit per `return` statement of the top-level function instead of merging them (smaller queries)"""
         node, owner, mod = self.w.function(qual)
         self.cur_mod = mod
         self.exits = []
+        if split_returns:
+            env = dict(closure or {})
+            self.bind_args(node, args, kwargs, st, env)
+            if owner: env["__class__"] = owner
+            self.inlined.add(qual)
+            cs = State(st.pc, env, st.heap, st.log)
+            self.cur_qual = qual; self.depth = 1; self.loop_ord = 0
+            end = self.block(node.body, cs)
+            exits = list(self.exits)
+            if not end.dead: exits.append(Exit("return", end.pc, NONE, end.snap(), list(end.log), None, qual))
+            st.pc = F
+            return exits
         ret = self.call_fn(node, args, kwargs, st, closure=closure, owner=owner, qual=qual)
         exits = list(self.exits)
         if not st.dead:
